@@ -18,14 +18,25 @@ all candidates agree:
 import itertools
 
 NBSP = u'\xa0'
-EXOTIC_WS = (NBSP, u'\x0b', u'\x0c', u'\u2003', u'\u3000')
+# characters that "whitespace at the ends" may or may not include (open): Unicode white space other than
+# space/tab/CR/LF, the C0 separators, NEL, and the zero-width "spaces" a reader may well count as white space
+EXOTIC_WS = (NBSP, u'\x0b', u'\x0c', u'\u2003', u'\u3000',
+             u'\x1c', u'\x1d', u'\x1e', u'\x1f', u'\x85', u'\u1680', u'\u2000', u'\u2009', u'\u200a',
+             u'\u2028', u'\u2029', u'\u202f', u'\u205f', u'\u200b', u'\ufeff')
 
 # explicit case table for every cased character the check's alphabets use
-_UPPER = u'ABCDEFGHIJKLMNOPQRSTUVWXYZ' + u'\xc9\xd1\u0414'      # E-acute, N-tilde, Cyrillic De
-_LOWER = u'abcdefghijklmnopqrstuvwxyz' + u'\xe9\xf1\u0434'
+_UPPER = u'ABCDEFGHIJKLMNOPQRSTUVWXYZ' + u'\xc9\xd1\u0414' + u'\xdc\u039b\uff21'   # E-acute, N-tilde, Cyrillic De,
+_LOWER = u'abcdefghijklmnopqrstuvwxyz' + u'\xe9\xf1\u0434' + u'\xfc\u03bb\uff41'   # U-umlaut, Lambda, fullwidth A
 FOLD = dict(zip(_UPPER, _LOWER))
 CASED = set(_UPPER) | set(_LOWER)
-CASELESS_KNOWN = set(u' \t\r\n0123456789.,;:!?-_+*/()[]{}|^$#\'"\\<>=&%@~`') | set(EXOTIC_WS)
+# caseless characters beyond ASCII used by the wide-alphabet family: controls, invisible format characters,
+# typographic look-alikes of ASCII punctuation, superscript / fraction / non-ASCII digits, a combining accent,
+# an astral-plane symbol
+EXOTIC_CASELESS = (u'\x00', u'\x7f', u'\u200c', u'\u200d', u'\u2060', u'\xad', u'\u2019', u'\u2018', u'\u201c',
+                   u'\u2013', u'\u2014', u'\u2212', u'\xd7', u'\xb2', u'\xbd', u'\u0301', u'\u0660',
+                   u'\U0001F600')
+CASELESS_KNOWN = (set(u' \t\r\n0123456789.,;:!?-_+*/()[]{}|^$#\'"\\<>=&%@~`') | set(EXOTIC_WS)
+                  | set(EXOTIC_CASELESS))
 
 
 class RefError(Exception):
@@ -243,3 +254,50 @@ PATTERNS = [
     ('chem', r'([CNOH](_[0-9])?)+', 'plain', 'NH_3', _chem),
 ]
 PATTERN_BY_NAME = {p[0]: p for p in PATTERNS}
+
+
+# ---------------------------------------------------------------- second pattern pool
+# used by the family validation_all_flags (every cleaning-flag set, not only strip / case): patterns whose
+# language depends on the white space left by the cleaning, the empty pattern, lazy quantifiers, nested
+# alternation that needs backtracking, a back-reference, an escaped dollar, an inline flag
+
+def _all_a(s):
+    return len(s) > 0 and all(c == 'a' for c in s)
+
+
+def _c_anything_t(s):
+    return len(s) >= 2 and s[0] == 'c' and s[-1] == 't' and '\n' not in s
+
+
+def _dollars(s):
+    return len(s) >= 2 and s[0] == '$' and all(c in '0123456789' for c in s[1:])
+
+
+def _upper_ascii(s):
+    return len(s) > 0 and all(c in 'ABCDEFGHIJKLMNOPQRSTUVWXYZ' for c in s)
+
+
+def _single_spaced_words(s):
+    # \S+( \S+)* on strings whose only white space is the space
+    return len(s) > 0 and all(len(w) > 0 for w in s.split(' '))
+
+
+PATTERNS2 = [
+    # name, regex, white-space sensitive?, answer used in compare mode, language
+    ('lit2', r'cat', True, 'cat', lambda s: s == 'cat'),
+    ('chem2', r'([CNOH](_[0-9])?)+', True, 'NH_3', _chem),
+    ('spaced', r'cat dog', True, 'cat dog', lambda s: s == 'cat dog'),
+    ('dspace', r'a  b', True, 'a  b', lambda s: s == 'a  b'),
+    ('edge-space', r' cat ', True, ' cat ', lambda s: s == ' cat '),
+    ('words', r'\S+( \S+)*', True, 'cat dog', _single_spaced_words),
+    ('upper', r'[A-Z]+', True, 'CAT', _upper_ascii),
+    ('empty', r'', False, '', lambda s: s == ''),
+    ('lazy', r'a+?', False, 'aa', _all_a),
+    ('lazy-dot', r'c.*?t', False, 'cat', _c_anything_t),
+    ('backref', r'(a|b)\1', False, 'aa', lambda s: s in ('aa', 'bb')),
+    ('dollar', r'\$\d+', False, '$12', _dollars),
+    ('inline-i', r'(?i)cat', False, 'Cat', lambda s: len(s) == 3 and s in (
+        'cat', 'caT', 'cAt', 'cAT', 'Cat', 'CaT', 'CAt', 'CAT')),
+    ('nested-alt', r'(a|ab)(c|bcd)?', False, 'abc', lambda s: s in ('a', 'ab', 'ac', 'abc', 'abcd', 'abbcd')),
+]
+PATTERN2_BY_NAME = {p[0]: p for p in PATTERNS2}
